@@ -67,6 +67,16 @@ THEOREMS = [
          strength="conditional-on-admissibility-of-all-columns"),
     dict(name="Snow.C06.run_ice_iff_recorded", clause="the same under the hypotheses of run_admissible_partial (inherits "
          "its side condition)", strength="partial"),
+    dict(name="Snow.C06.trajAdm_uncoupled", clause="NOTHING monitored: the whole-trajectory invariant TrajAdm (every vial of "
+         "every stored column is liquid without a record, or has 0 < sigma < 1 on the curve with a recorded nucleation) for "
+         "thermally uncoupled vials (k_int·A = 0), any start temperature in the stability range", strength="full"),
+    dict(name="Snow.C06.trajAdm_below_liquidus", clause="NOTHING monitored: TrajAdm for a process that starts at or below the "
+         "liquidus under Stable (hi = T_eq_l) and the static inequality StaticSide", strength="full"),
+    dict(name="Snow.C06.ice_iff_recorded_uncoupled", clause="NOTHING monitored, uncoupled vials: in column j a vial contains "
+         "ice iff the nucleation time in the final statistics exists and is <= t[j]", strength="full"),
+    dict(name="Snow.C06.ice_iff_recorded_below_liquidus", clause="NOTHING monitored, process starting at or below the "
+         "liquidus: in column j a vial contains ice iff the nucleation time in the final statistics exists and is <= t[j]",
+         strength="full"),
     dict(name="Snow.C06.shelf_coeff_nonneg", clause="the shelf coefficients handed to the step (clamped draws) are "
          ">= 0 for every draw of the normals, GIVEN s0 >= 0 (premise of convexity)", strength="full"),
     dict(name="Snow.C06.ext_nonneg_shape", clause="for every declared shape and both arrangements every vial has a "
